@@ -22,8 +22,8 @@ def import_style(pid, body):
         body = body.replace("SEQPKG.", "seq." if style == "dot+seq" else "sq.")
     q = {"dot": "", "dot+seq": "", "default": "co.", "renamed": "gen.", "default+seq-renamed": "co."}[style]
     if q:
-        body = re.sub(r"\bYieldFrom\(", q + "YieldFrom(", body)
-        body = re.sub(r"\bYield\(", q + "Yield(", body)
+        body = re.sub(r"\bYieldFrom([\(\[])", q + r"YieldFrom\1", body)
+        body = re.sub(r"\bYield([\(\[])", q + r"Yield\1", body)
         body = re.sub(r"\bIter\[", q + "Iter[", body)
     imp = {"dot": '\t. "github.com/goghcrow/go-co"\n',
            "default": '\t"github.com/goghcrow/go-co"\n',
